@@ -106,27 +106,22 @@ class C12(Prop):
             t0 = env.from_string(src)
         except LiquidError:
             return None
-        s1 = str(t0)
-        try:
-            t1 = env.from_string(s1)
-        except LiquidError as err:
-            return ("reparse-error", f"{type(err).__name__}: {err.args[0] if err.args else ''}; s1={s1!r}")
-        for d in datas:
-            a, b = outcome(t0, d), outcome(t1, d)
-            if a != b:
-                return ("outcome-diff", f"orig={a!r} reparsed={b!r}; s1={s1!r}")
-        s2 = str(t1)
-        try:
-            t2 = env.from_string(s2)
-        except LiquidError as err:
-            return ("reparse2-error", f"{type(err).__name__}: {err.args[0] if err.args else ''}; s2={s2!r}")
-        s3 = str(t2)
-        if s3 != s2:
-            return ("not-fixed-point", f"s2={s2!r} s3={s3!r}")
-        for d in datas:
-            a, b = outcome(t0, d), outcome(t2, d)
-            if a != b:
-                return ("outcome-diff2", f"orig={a!r} reparsed-twice={b!r}; s2={s2!r}")
+        # "this stays true under repeated parse-then-str round trips": three rounds, each
+        # serialisation must parse and behave like the original (textual fixed point is NOT
+        # demanded - the statement only speaks about behaviour).
+        cur = t0
+        for rnd in (1, 2, 3):
+            text = str(cur)
+            try:
+                nxt = env.from_string(text)
+            except LiquidError as err:
+                return (f"reparse-error", f"round {rnd}: {type(err).__name__}: "
+                        f"{err.args[0] if err.args else ''}; serialised={text!r}")
+            for d in datas:
+                a, b = outcome(t0, d), outcome(nxt, d)
+                if a != b:
+                    return ("outcome-diff", f"round {rnd}: orig={a!r} reparsed={b!r}; serialised={text!r}")
+            cur = nxt
         return None
 
     def check(self, case: Any, disabled: frozenset[str] = frozenset()) -> Result:
@@ -199,7 +194,9 @@ class C12(Prop):
             import traceback
 
             tb = traceback.format_exc()
-            if "__str__" in tb or "pickle" in tb:
+            if "pickle" in tb:
+                res.fail("pickle", f"pickle-crash:{type(err).__name__}", f"{type(err).__name__}: {err}; src={src!r}")
+            elif "__str__" in tb:
                 res.fail("str-roundtrip", "str-crash:" + exc_bucket(err), f"{type(err).__name__}: {err}; src={src!r}")
             else:
                 res.labels.append("crash:" + exc_bucket(err))
